@@ -5,7 +5,7 @@ contracts carry its per-call footprint: frame obligations (nothing shared is wri
 what the contract names, set iteration order cannot escape), repeated-read obligations and the idempotence of filling.
 Byte-identical output under different hash seeds / directory contents is exercised as a bounded stand-in.
 """
-import glob, hashlib, importlib, os, shutil, subprocess, sys, tempfile, types, warnings
+import re, glob, hashlib, importlib, os, shutil, subprocess, sys, tempfile, types, warnings
 import numpy
 import pandas
 import z3
@@ -43,6 +43,16 @@ ALLOWED_WRITES = {
 }
 
 
+# module-level clauses of the same contracts: they hold for whichever function of the module performs the step, so that extracting a helper
+# does not change the verdict.  (pattern on the analysis' finding text, reason)
+ALLOWED_AMBIENT_MODULE = {
+    "util/fill.py": (r"^file-system probe Path\(\w+\)\.is_file\(\)", ALLOWED_AMBIENT[("util/fill.py", "fill_cij")]),
+}
+ALLOWED_WRITES_MODULE = {
+    "util/fill.py": (r"^item assignment into (\w+), which is bound to parameter \1 ", ALLOWED_WRITES[("util/fill.py", "fill_cij")]),
+}
+
+
 def run(s):
     tier = s.tier
     s.trust("vf/frames.py (conservative AST analysis; unsound for setattr/exec/C extensions/aliasing through locals)", "python import system (modules executed once)")
@@ -63,6 +73,10 @@ def run(s):
             for q, r in reps.items():
                 for kind, what in r.findings():
                     if kind == "ambient" and (rel, q) in ALLOWED_AMBIENT:
+                        continue
+                    if kind == "ambient" and rel in ALLOWED_AMBIENT_MODULE and re.search(ALLOWED_AMBIENT_MODULE[rel][0], what):
+                        continue
+                    if kind == "write" and rel in ALLOWED_WRITES_MODULE and re.search(ALLOWED_WRITES_MODULE[rel][0], what):
                         continue
                     if kind == "set-iteration" and (rel, q) in ALLOWED_SET_ITERATION:
                         continue
